@@ -514,6 +514,8 @@ func runC06(p *Program, r *Report) {
 	c06closereadYield(p, r, "C06.closeread")
 	c03fail(p, r, "C06.fail")
 	c06held(p, r, "C06.held")
+	// the payload of a close frame is read in full before it is parsed and echoed (seed C06-O)
+	c03full(p, r, "C06.full")
 	// "a Close frame with exactly that code and reason": the header codec's length table at 125 (seed C06-M)
 	shareAs(r, "C06.frame.len", "C06.frame.len", func(sub *Report) { c02bits(p, sub, "C06.frame") })
 	cAfterClose(p, r, "C06.after-close")
